@@ -101,3 +101,28 @@ theorem unit_of_tree (pre : Prefixes K) (t t' : Lut K) (e : CExpr K) (u : UnitV 
   exact hs
 
 end Unyt.C02
+
+/-! ### non-vacuity: the hypotheses of the tree theorems are satisfiable without Mathlib
+    (a degenerate power operation on the trivial "positive part" {1}; the instance that matters,
+    `Real.rpow` on the positive reals, is `UnytProofs/Real/RPow.lean`) -/
+namespace Unyt.C02.NonVacuity
+open Unyt
+
+local instance : RPow Rat := ⟨fun _ _ => 1⟩
+
+example : RPowLaws (RPow.rpow (K := Rat)) (fun a => a = 1) where
+  pos_one := rfl
+  pos_mul := by intro a b ha hb; subst ha; subst hb; exact Rat.mul_one 1
+  pos_rpow := by intro a q _; rfl
+  rpow_zero := by intro a _; rfl
+  rpow_one := by intro a ha; subst ha; rfl
+  rpow_add := by intro a p q _; exact (Rat.mul_one 1).symm
+  rpow_mul := by intro a p q _; rfl
+  mul_rpow := by intro a b q _ _; exact (Rat.mul_one 1).symm
+  one_rpow := by intro q; rfl
+
+/-- a tree of numbers only is a `PosTree` over any table -/
+example (pre : Prefixes Rat) (t : Lut Rat) :
+    PosTree (fun a => a = 1) pre t (.mul (.num 1) (.pow (.num 1) (1 / 2))) := ⟨rfl, rfl⟩
+
+end Unyt.C02.NonVacuity
